@@ -424,6 +424,8 @@ func (x *Exec) specBin(sc *specScope, n *EBin, hint types.Type) Value {
 			} else {
 				eq = And(Eq(a.L[0], b.L[0]), Eq(a.L[1], b.L[1]))
 			}
+		case len(a.L) == 1 && a.L[0] == nil && a.Loc != nil && (isUntypedNil(b) || isNilConst(b)):
+			eq = False // the address of a field or element is never nil
 		case isSliceT(a.T) && (isUntypedNil(b) || isNilConst(b)):
 			eq = Eq(a.L[0], IntLit(0))
 		case isUntypedNil(b):
